@@ -8,6 +8,7 @@ import (
 	"encoding/json"
 	"errors"
 	"fmt"
+	"math"
 	"math/big"
 	"sort"
 	"strconv"
@@ -181,14 +182,15 @@ func factsOf(n *ANode, path []string, multi []bool, out *[]Fact) {
 // ---------- generation ----------
 
 type DocGen struct {
-	prime    *big.Int // integers are generated inside the ranges of this prime (default: BN254)
-	r        *Rng
-	sch      *Schema
-	nid      int
-	maxDep   int
-	noGraph  bool
-	emptyOK  bool // allow empty strings
-	multiPct int  // chance (percent) that a field is multi-valued; 0 = default 35
+	prime       *big.Int // integers are generated inside the ranges of this prime (default: BN254)
+	r           *Rng
+	sch         *Schema
+	nid         int
+	maxDep      int
+	noGraph     bool
+	emptyOK     bool // allow empty strings
+	multiPct    int  // chance (percent) that a field is multi-valued; 0 = default 35
+	nativeInStr bool // JSON numbers and booleans may appear under string and custom datatypes
 }
 
 var xsdLitTypes = []string{"integer", "nonNegativeInteger", "positiveInteger", "negativeInteger", "nonPositiveInteger", "boolean", "dateTime", "double", "string", "", "", "custom"}
@@ -262,6 +264,9 @@ func (g *DocGen) litFor(dt string) *ALit {
 			return &ALit{DT: xsdNS + "integer", Kind: "int", Canon: strconv.FormatInt(v, 10), JSON: RawNum(strconv.FormatInt(v, 10)),
 				Alts: []any{RawNum(strconv.FormatInt(v, 10) + ".0"), RawNum(strconv.FormatInt(v, 10) + "e0")}}
 		case 2:
+			if (g.prime == nil || g.prime.BitLen() > 80) && r.Chance(25) {
+				return g.bigWhole("", false)
+			}
 			f := float64(2*r.Intn(50000)+1) / 8
 			c := ld.GetCanonicalDouble(f)
 			return &ALit{DT: xsdNS + "double", Kind: "str", Canon: c, JSON: RawNum(strconv.FormatFloat(f, 'f', -1, 64)),
@@ -281,7 +286,18 @@ func (g *DocGen) litFor(dt string) *ALit {
 			v = r.BigBelow(new(big.Int).Add(new(big.Int).Sub(hi, lo), big.NewInt(1)))
 			v.Add(v, lo)
 		} else {
-			switch r.Intn(5) {
+			switch r.Intn(6) {
+			case 5:
+				if pr.BitLen() > 80 {
+					return g.bigWhole(dt, hi.Sign() <= 0)
+				}
+				v = big.NewInt(int64(r.Intn(7)))
+				if hi.Sign() <= 0 {
+					v.Neg(v)
+				}
+				if v.Cmp(lo) < 0 || v.Cmp(hi) > 0 {
+					v = new(big.Int).Set(hi)
+				}
 			case 0:
 				v = new(big.Int).Set(lo)
 			case 1:
@@ -304,7 +320,15 @@ func (g *DocGen) litFor(dt string) *ALit {
 			}
 		}
 		s := v.String()
-		l := &ALit{DT: dt, Kind: "int", Canon: s, JSON: s, LexAlts: []any{s + ".0"}}
+		l := &ALit{DT: dt, Kind: "int", Canon: s, JSON: s, LexAlts: []any{s + ".0", s + "e0", s + ".000E+0"}}
+		if v.Sign() >= 0 {
+			l.LexAlts = append(l.LexAlts, "0"+s, "00"+s, "+"+s, "+0"+s)
+		} else {
+			l.LexAlts = append(l.LexAlts, "-0"+s[1:], "-00"+s[1:])
+		}
+		if z := len(s) - len(strings.TrimRight(s, "0")); z > 0 && v.Sign() != 0 {
+			l.LexAlts = append(l.LexAlts, fmt.Sprintf("%se%d", s[:len(s)-z], z), fmt.Sprintf("%sE+%d", s[:len(s)-z], z))
+		}
 		if v.IsInt64() && v.Int64() > -(1<<53) && v.Int64() < (1<<53) {
 			l.Alts = append(l.Alts, RawNum(s), RawNum(s+".0"), RawNum(s+"e0"))
 			if r.Bool() {
@@ -349,9 +373,59 @@ func (g *DocGen) litFor(dt string) *ALit {
 		s := strconv.FormatFloat(f, 'f', -1, 64)
 		return &ALit{DT: dt, Kind: "str", Canon: c, JSON: RawNum(s), Alts: []any{RawNum(strconv.FormatFloat(f, 'e', -1, 64))}, LexAlts: []any{s}}
 	default:
+		if g.nativeInStr && r.Chance(15) {
+			// a JSON number or boolean under a non-numeric datatype: the dataset holds its JSON-LD spelling
+			switch r.Intn(4) {
+			case 0:
+				v := int64(r.Intn(2000)) - 1000
+				c := strconv.FormatInt(v, 10)
+				return &ALit{DT: dt, Kind: "str", Canon: c, JSON: RawNum(c), Alts: []any{RawNum(c + ".0"), RawNum(c + "e0")}}
+			case 1:
+				f := float64(2*r.Intn(50000)+1) / 8
+				return &ALit{DT: dt, Kind: "str", Canon: ld.GetCanonicalDouble(f), JSON: RawNum(strconv.FormatFloat(f, 'f', -1, 64)),
+					Alts: []any{RawNum(strconv.FormatFloat(f, 'e', -1, 64))}}
+			case 2:
+				b := r.Bool()
+				return &ALit{DT: dt, Kind: "str", Canon: strconv.FormatBool(b), JSON: b}
+			default:
+				l := g.bigWhole("", false)
+				return &ALit{DT: dt, Kind: "str", Canon: l.Canon, JSON: l.JSON, Alts: l.Alts}
+			}
+		}
 		s := g.str()
 		return &ALit{DT: dt, Kind: "str", Canon: s, JSON: s}
 	}
+}
+
+// bigWhole: a whole JSON number between 2^53 and 2^69. Below 2^63 the RDF conversion spells all its digits; from 2^63 on
+// (where the int64 test for "whole" fails) it spells the 16-digit canonical double. dt == "" means untyped (native).
+func (g *DocGen) bigWhole(dt string, negative bool) *ALit {
+	r := g.r
+	m := (uint64(1) << 52) | (r.U64() >> 12)
+	f := math.Ldexp(float64(m), 1+r.Intn(16))
+	if r.Chance(20) {
+		f = []float64{1e19, 1e20, math.Ldexp(1, 63), math.Ldexp(1, 64), math.Ldexp(1, 62), 1e17, 123456789012345680000}[r.Intn(7)]
+	}
+	if negative || (dt == "" || dt == xsdNS+"integer") && r.Bool() {
+		f = -f
+	}
+	js := strconv.FormatFloat(f, 'f', -1, 64)
+	alts := []any{RawNum(strconv.FormatFloat(f, 'e', -1, 64)), RawNum(fmt.Sprintf("%.0f", f)), RawNum(fmt.Sprintf("%.1f", f))}
+	if f == float64(int64(f)) {
+		c := strconv.FormatInt(int64(f), 10)
+		d := dt
+		if d == "" {
+			d = xsdNS + "integer"
+		}
+		return &ALit{DT: d, Kind: "int", Canon: c, JSON: RawNum(js), Alts: alts}
+	}
+	cd := ld.GetCanonicalDouble(f)
+	if dt == "" {
+		return &ALit{DT: xsdNS + "double", Kind: "str", Canon: cd, JSON: RawNum(js), Alts: alts}
+	}
+	bf, _, _ := big.ParseFloat(cd, 10, 2000, big.ToNearestEven)
+	x, _ := bf.Int(nil)
+	return &ALit{DT: dt, Kind: "int", Canon: x.String(), JSON: RawNum(js), Alts: alts}
 }
 
 var words = []string{"alpha", "beta", "γάμμα", "delta 4", "e", "x y z", "1", "true", "2020-01-01", "\"q\"", "tab\there", "ünï", "long-" + strings.Repeat("abcdefghij", 7)}
@@ -426,6 +500,8 @@ type Presentation struct {
 	prefix          string
 	lexAlt          int  // 0 never; 1 only on single-valued properties; 2 anywhere
 	usedArrayLexAlt bool // a lexical respelling was used inside a multi-valued property (or inside a member of one)
+	usedLexAlt      bool // a lexical respelling was used anywhere
+	lexNumOnly      bool // respell numbers only (integers and doubles), not booleans or instants
 	underMulti      int
 	withUndef       bool
 }
@@ -494,8 +570,10 @@ func (g *DocGen) renderVal(v AVal, t *Term, p *Presentation, multi bool) any {
 		if p.altSpell && len(v.Lit.Alts) > 0 && p.r.Chance(60) {
 			j = v.Lit.Alts[p.r.Intn(len(v.Lit.Alts))]
 		}
-		if len(v.Lit.LexAlts) > 0 && (p.lexAlt == 2 || (p.lexAlt == 1 && !multi)) && p.r.Chance(50) {
+		numeric := v.Lit.Kind == "int" || v.Lit.DT == xsdNS+"double"
+		if len(v.Lit.LexAlts) > 0 && (p.lexAlt == 2 || (p.lexAlt == 1 && !multi)) && (numeric || !p.lexNumOnly) && p.r.Chance(50) {
 			j = v.Lit.LexAlts[p.r.Intn(len(v.Lit.LexAlts))]
+			p.usedLexAlt = true
 			if multi {
 				p.usedArrayLexAlt = true
 			}
